@@ -295,6 +295,10 @@ pub fn scenario(w: &ParWorkload, slot: &Shared) {
         }
     } else {
         count(slot, "probe.workers_wrote_facts");
+        let bottom = w.rules.iter().filter(|r| r.enabled).map(|r| r.salience).min().unwrap_or(0);
+        if w.rules.iter().any(|r| r.enabled && r.salience == bottom && matches!(r.custom, Some(0) | Some(1))) && w.rules.iter().any(|r| r.enabled && r.salience > bottom) {
+            count(slot, "probe.writers_on_the_lowest_level_below_readers");
+        }
     }
     let mut s = slot.lock().unwrap();
     let levels: std::collections::BTreeSet<i32> = w.rules.iter().filter(|r| r.enabled).map(|r| r.salience).collect();
@@ -388,6 +392,39 @@ pub fn generate(rng: &mut Rng, _thorough: bool) -> ParWorkload {
             avoid_d(&mut r.cond);
             if rng.chance(1, 2) {
                 r.custom = Some(if second_writer && rng.chance(1, 2) { 2 } else { kind });
+            }
+        }
+    } else if rng.chance(1, 5) {
+        // the other way round (one workload in six or so): the writers sit on the LOWEST level and do not read
+        // F.d; rules of every higher level may read it and see the initial value on every schedule, because a
+        // level has been joined before the next one starts
+        fn avoid_d(c: &mut PCond) {
+            match c {
+                PCond::Atom { field, .. } | PCond::Func { field, .. } => {
+                    if *field % 4 == 3 {
+                        *field = 0;
+                    }
+                }
+                PCond::And(a, b) | PCond::Or(a, b) => {
+                    avoid_d(a);
+                    avoid_d(b);
+                }
+                PCond::Not(a) => avoid_d(a),
+            }
+        }
+        fn read_d(c: &mut PCond) {
+            if let PCond::Atom { field, .. } | PCond::Func { field, .. } = c {
+                *field = 3;
+            }
+        }
+        let bottom = rules.iter().filter(|r| r.enabled).map(|r| r.salience).min().unwrap_or(0);
+        let kind = rng.below(2) as u8;
+        for r in rules.iter_mut() {
+            if r.salience == bottom {
+                avoid_d(&mut r.cond);
+                r.custom = Some(kind);
+            } else if rng.chance(1, 2) {
+                read_d(&mut r.cond);
             }
         }
     }
